@@ -33,6 +33,7 @@ import Ptk.Props.C13Fixed
 import Ptk.Props.C13FixedMulti
 import Ptk.Props.C13Mem
 import Ptk.Props.C13Foreign
+import Ptk.Gen.C13
 namespace Ptk.C13
 open Ptk.Py
 
@@ -467,16 +468,22 @@ theorem fixed_hist0_spec (st : THF) (h : st.cpc = .idle ∨ st.cpc = .done) :
         locked read — every entry exactly once, none lost, none twice; entries appended after that
         read (`later`) are not part of this call;
     (3) once loading is done the cache (`get_strings()`, and so every later `load()`) holds the
-        whole history, every entry once, in order. -/
-theorem fixed_append_exactly_once (old pre : List Text) (sched : List StepF) :
-    let st := runF (THF.init old pre) sched
+        whole history, every entry once, in order.
+    BOTH KINDS of inner history: `eager` (reads its storage when `load_history_strings()` is called:
+    FileHistory) and lazy (when its first item is requested: a generator).  `hoist = false` is the
+    code as it is — call, list reset and first item in ONE locked block: the statement holds for
+    both kinds.  With the call in front of the lock (`hoist = true`) it still holds for a lazy inner
+    history, and is FALSE for an eager one (`hoisted_call_loses_entry`). -/
+theorem fixed_append_exactly_once (old pre : List Text) (sched : List StepF)
+    (eager hoist : Bool := false) (hcfg : hoist = false ∨ eager = false := by decide) :
+    let st := runF (THF.init old pre eager hoist) sched
     (st.active → st.out <+: st.hist0 ∧ st.view = st.view.take st.shift ++ st.hist0) ∧
     (st.cpc = .done → st.complete = true → st.failed = false →
       st.out = st.hist0 ++ st.front ∧ st.out.Perm (st.front ++ st.hist0) ∧
       ∃ later, st.view = later ++ (st.front ++ st.hist0)) ∧
     (st.loaded = true → st.failed = false → st.getStrings = st.storage) := by
   intro st
-  have h : InvF st := invF_run _ (invF_init old pre) sched
+  have h : InvF st := invF_run _ (invF_init old pre eager hoist hcfg) sched
   refine ⟨fun ha => ⟨?_, ?_⟩, fun hd hc hf => ⟨?_, ?_, ?_⟩, fun hl hf => ?_⟩
   · rw [h.cons ha]; exact List.take_prefix _ _
   · rw [← h.hist ha, List.take_append_drop]
@@ -507,6 +514,45 @@ example :
       [.cstart, .lreset, .lappend, .lnotify, .cwait, .cread, .app "X".toList, .ccancel, .cstart,
        .lappend, .lnotify, .ldone, .lfinal, .cwait, .cread, .cyield]
     st.out = ["X".toList, "o2".toList, "o1".toList] ∧ st.complete = true ∧ st.front = [] := by decide
+
+/-! ### the call of the inner history must stand INSIDE the lock (for an eager inner history) -/
+
+/-- SIDE CONDITION on the tree, re-decided on every run on the regenerated flag (behavioural probe in
+    harness/gen_c13.py): the loader thread calls the inner `load_history_strings()` inside the locked
+    block — the configuration `hoist = false` for which `fixed_append_exactly_once` covers BOTH kinds of
+    inner history. -/
+theorem gen_call_in_lock : Gen.C13.callHoisted = false := by decide
+
+/-- the loader has called the inner history (which has read its storage), then an `append_string`,
+    then the locked block with the list reset -/
+def hoistSchedule : List StepF :=
+  [.cstart, .lcall, .app "NEW".toList, .lreset, .lappend, .lnotify, .lappend, .lnotify, .ldone, .lfinal,
+   .cwait, .cread, .cyield]
+
+/-- HOISTED CALL + EAGER INNER HISTORY (FileHistory) LOSES AN ENTRY: with
+    `strings = iter(self.history.load_history_strings())` in front of `with self._lock:` the file is read
+    before the lock is taken; an `append_string` in that window is wiped by the list reset and is not in
+    what was read: the call completes without the entry, the cache does not have it either (although it
+    is in the store), and no later `load()` of this instance will yield it. -/
+theorem hoisted_call_loses_entry :
+    let st := runF (THF.init ["o1".toList] [] true true) hoistSchedule
+    st.cpc = .done ∧ st.complete = true ∧ st.failed = false ∧ st.out = ["o1".toList] ∧
+    st.getStrings = ["o1".toList] ∧ st.storage = ["o1".toList, "NEW".toList] := by decide
+
+/-- … a LAZY inner history (a generator reads its storage when the first item is requested, inside the
+    lock) is not affected by the hoisted call … -/
+theorem hoisted_call_lazy_ok :
+    let st := runF (THF.init ["o1".toList] [] false true) hoistSchedule
+    st.out = ["o1".toList, "NEW".toList] ∧ st.complete = true ∧
+    st.getStrings = ["o1".toList, "NEW".toList] := by decide
+
+/-- … and with the code as it is (the call inside the locked block; `.lcall` is not a step of its own)
+    the same schedule is fine for BOTH kinds. -/
+theorem locked_call_both_kinds_ok (eager : Bool) :
+    let st := runF (THF.init ["o1".toList] [] eager false) hoistSchedule
+    st.out = ["o1".toList, "NEW".toList] ∧ st.complete = true ∧
+    st.getStrings = ["o1".toList, "NEW".toList] := by
+  cases eager <;> decide
 
 /-- schedules without any `append_string` -/
 def noApp (sched : List StepF) : Prop := ∀ a ∈ sched, ∀ s, a ≠ .app s
@@ -543,11 +589,7 @@ theorem invNA_step (S : List Text) (n : Nat) (st : THF) (h : InvNA S n st) (a : 
     · exact h
   | lfail =>
     simp only [stepF]
-    split
-    · constructor <;> simp_all
-    · split
-      · constructor <;> simp_all
-      · exact h
+    (repeat' split) <;> first | exact h | (constructor <;> simp_all)
   | cstart =>
     simp only [stepF]
     split
@@ -571,7 +613,8 @@ theorem invNA_step (S : List Text) (n : Nat) (st : THF) (h : InvNA S n st) (a : 
       have h4' := h4 hne
       constructor <;> simp_all
     · exact h
-  | lreset => simp only [stepF]; split <;> first | exact h | (constructor <;> simp_all)
+  | lcall => simp only [stepF]; split <;> first | exact h | (constructor <;> simp_all)
+  | lreset => simp only [stepF]; (repeat' split) <;> first | exact h | (constructor <;> simp_all)
   | lnotify => simp only [stepF]; split <;> first | exact h | (constructor <;> simp_all)
   | ldone => simp only [stepF]; split <;> first | exact h | (constructor <;> simp_all)
   | lfinal => simp only [stepF]; split <;> first | exact h | (constructor <;> simp_all)
@@ -588,16 +631,17 @@ theorem invNA_run (S : List Text) (n : Nat) (st : THF) (h : InvNA S n st) (sched
 /-- BACKGROUND = INLINE on the repaired code: with no concurrent `append_string`, under every
     interleaving of loader thread and consumer (with cancellations and repeated `load()` calls) a
     `load()` call has always yielded a prefix of, and on completion exactly, the reversed store. -/
-theorem fixed_loader_only_equiv (old pre : List Text) (sched : List StepF) (hs : noApp sched) :
-    let st := runF (THF.init old pre) sched
+theorem fixed_loader_only_equiv (old pre : List Text) (sched : List StepF) (hs : noApp sched)
+    (eager hoist : Bool := false) (hcfg : hoist = false ∨ eager = false := by decide) :
+    let st := runF (THF.init old pre eager hoist) sched
     st.storage = old ++ pre ∧
     (st.active → st.out <+: (old ++ pre).reverse) ∧
     (st.cpc = .done → st.complete = true → st.failed = false → st.out = (old ++ pre).reverse) := by
   intro st
-  have hna0 : InvNA (old ++ pre) pre.length (THF.init old pre) := by
+  have hna0 : InvNA (old ++ pre) pre.length (THF.init old pre eager hoist) := by
     constructor <;> simp [THF.init]
   have hna : InvNA (old ++ pre) pre.length st := invNA_run _ _ _ hna0 sched hs
-  have h := fixed_append_exactly_once old pre sched
+  have h := fixed_append_exactly_once old pre sched eager hoist hcfg
   refine ⟨hna.sto, fun ha => ?_, fun hd hc hf => ?_⟩
   · have hne : st.cpc ≠ .idle := by rcases ha with ha | ha | ha <;> simp [ha]
     rw [← hna.h0 hne]; exact (h.1 ha).1
@@ -609,13 +653,14 @@ theorem fixed_loader_only_equiv (old pre : List Text) (sched : List StepF) (hs :
     consumer steps that all change the state is never longer than `budgetF`, and while a `load()`
     call is in progress some loader / consumer step changes the state.  So every maximal run
     completes the call — also when the inner history raises (`.lfail`): the consumer never hangs. -/
-theorem fixed_terminates (old pre : List Text) (sched : List StepF) :
-    let st := runF (THF.init old pre) sched
+theorem fixed_terminates (old pre : List Text) (sched : List StepF)
+    (eager hoist : Bool := false) (hcfg : hoist = false ∨ eager = false := by decide) :
+    let st := runF (THF.init old pre eager hoist) sched
     (∀ more : List StepF, (∀ a ∈ more, isLoadStepF a) → effectiveF st more →
         more.length ≤ budgetF st) ∧
     (st.active → ∃ a, isLoadStepF a ∧ stepF st a ≠ st) := by
   intro st
-  refine ⟨fun more hm he => ?_, no_deadlockF st (invF_run _ (invF_init old pre) sched)⟩
+  refine ⟨fun more hm he => ?_, no_deadlockF st (invF_run _ (invF_init old pre eager hoist hcfg) sched)⟩
   have := sched_boundedF st more hm he
   omega
 
@@ -629,11 +674,12 @@ example : budgetF (runF (THF.init ["o1".toList, "o2".toList] []) [.cstart, .app 
 /-- BACKGROUND = INLINE for a file-backed history on the repaired code -/
 theorem fixed_threaded_file_equiv (es : List (Text × Text)) (hts : TsOk es) (sched : List StepF)
     (hs : noApp sched) :
-    let st := runF (THF.init (es.map (·.2)) []) sched
+    -- (`FileHistory` is an eager inner history)
+    let st := runF (THF.init (es.map (·.2)) [] true false) sched
     st.cpc = .done → st.complete = true → st.failed = false →
       st.out = loadFile utf8 (stores utf8 es) := by
   intro st hd hc hf
-  have := (fixed_loader_only_equiv (es.map (·.2)) [] sched hs).2.2 hd hc hf
+  have := (fixed_loader_only_equiv (es.map (·.2)) [] sched hs true false).2.2 hd hc hf
   rw [roundtrip es hts]
   simpa using this
 
@@ -650,8 +696,8 @@ theorem storage_stepF (st : THF) (a : StepF) :
 /-- DURABLE: under every interleaving every `append_string` reaches the inner store exactly once,
     in call order, behind what was there (so that, with `roundtrip`, a fresh `FileHistory` reads
     all of them back); nothing else is ever written. -/
-theorem fixed_store_exact (old pre : List Text) (sched : List StepF) :
-    (runF (THF.init old pre) sched).storage = old ++ pre ++ appsOf sched := by
+theorem fixed_store_exact (old pre : List Text) (sched : List StepF) (eager hoist : Bool := false) :
+    (runF (THF.init old pre eager hoist) sched).storage = old ++ pre ++ appsOf sched := by
   have key : ∀ (sched : List StepF) (st : THF), (runF st sched).storage = st.storage ++ appsOf sched := by
     intro sched
     induction sched with
@@ -661,7 +707,7 @@ theorem fixed_store_exact (old pre : List Text) (sched : List StepF) :
       simp only [runF, List.foldl_cons] at ih ⊢
       rw [ih, storage_stepF]
       cases a <;> simp [appsOf]
-  simpa [THF.init] using key sched (THF.init old pre)
+  simpa [THF.init] using key sched (THF.init old pre eager hoist)
 
 example : (runF (THF.init ["o".toList] []) [.cstart, .app "a".toList, .lreset, .ccancel, .app "b".toList]).storage
     = ["o".toList, "a".toList, "b".toList] := by decide
